@@ -599,6 +599,62 @@ func largeTree(r *rng.R, sz int) *tree.Item {
 	return cur
 }
 
+// wireMarshalAfterPanic: the package-level MarshalTTLV (a new encoder per call today) after calls of the
+// same function that panicked and were recovered by the caller (an attribute value of an unsupported Go
+// type, a negative Interval - user errors a server's per-item recovery or net/http swallow). What a later
+// call returns must not depend on them: the reference bytes are taken BEFORE the first failing call, and
+// the independent parser must read the tree back. (A pooled / package-level encoder that an aborted call
+// leaves dirty shows only in such a sequence.)
+func wireMarshalAfterPanic(ctx *Ctx) {
+	r := ctx.R
+	opts := tree.GenOpts{MaxDepth: 4, MaxChildren: 4, MaxData: 40, MaxBigBits: 128}
+	var ts []*tree.Item
+	var want [][]byte
+	for i := 0; i < 24; i++ {
+		t := tree.Gen(r, opts, 0)
+		b, p := guard("MarshalTTLV", func() []byte { return ttlv.MarshalTTLV(toValue(t)) })
+		if p != "" {
+			continue // reported by wireEncCase
+		}
+		ts, want = append(ts, t), append(want, append([]byte{}, b...))
+	}
+	poisons := []any{
+		ttlv.Value{Tag: 0x42000F, Value: ttlv.Struct{{Tag: 0x420008, Value: ttlv.Struct{{Tag: 0x42000A, Value: int32(7)}, {Tag: 0x42000B, Value: -time.Second}}}}},
+		ttlv.Value{Tag: 0x42000F, Value: ttlv.Struct{{Tag: 0x42000A, Value: int32(7)}, {Tag: 0x420008, Value: ttlv.Struct{{Tag: 0x42000B, Value: struct{ X chan int }{}}}}}},
+		ttlv.Value{Tag: 0x42000F, Value: ttlv.Struct{{Tag: 0x420055, Value: "text"}, {Tag: 0x42000B, Value: 7}}}, // int, not int32
+	}
+	panicked := 0
+	for round := 0; round < 6; round++ {
+		for pi, pv := range poisons {
+			for k := 0; k <= round; k++ { // 1..6 failing calls in a row
+				if _, p := guard("MarshalTTLV (value that cannot be encoded)", func() []byte { return ttlv.MarshalTTLV(pv) }); p != "" {
+					panicked++
+				}
+			}
+			for i, t := range ts {
+				line := "wire.enc " + t.Render()
+				ctx.current = line
+				got, p := guard("MarshalTTLV", func() []byte { return ttlv.MarshalTTLV(toValue(t)) })
+				back, err := tree.Decode(got)
+				if p != "" || !bytes.Equal(got, want[i]) || err != nil || !tree.Equal(back, t) {
+					what := "returns " + truncate(hexUp(got), 60) + " where it returned " + truncate(hexUp(want[i]), 60) + " before"
+					if p != "" {
+						what = "panics: " + truncate(p, 80)
+					}
+					d := fmt.Sprintf("after %d recovered MarshalTTLV panic(s) (value #%d that cannot be encoded), MarshalTTLV of a well-formed value %s", round+1, pi, what)
+					ctx.Res.Violate(report.Violation{Property: "C01", Oracle: "marshal-after-recovered-panic", Key: "enc:marshal-after-panic", Detail: d, Line: line})
+					ctx.Res.Violate(report.Violation{Property: "C03", Oracle: "marshal-after-recovered-panic", Key: "enc:marshal-after-panic", Detail: d, Line: line})
+					return
+				}
+			}
+		}
+	}
+	ctx.Res.Count(fmt.Sprintf("enc.marshal-after-panic.failing-calls=%d", panicked))
+	if panicked == 0 {
+		ctx.Res.Count("enc.marshal-after-panic.no-value-panicked")
+	}
+}
+
 func runWire(ctx *Ctx) {
 	if len(ctx.Replay) > 0 {
 		for _, l := range ctx.Replay {
@@ -637,6 +693,7 @@ func runWire(ctx *Ctx) {
 		wireDecCase(ctx, t.Encode(), "large")
 	}
 	wireProbeCases(ctx)
+	wireMarshalAfterPanic(ctx)
 	// deep nesting: structure chains well beyond the depth random trees reach
 	depths := []int{31, 32, 33, 63, 64, 65, 100, 255, 256, 257, 600}
 	if ctx.Thor {
